@@ -70,16 +70,21 @@ CONSTANTS Kind,        \* "value" | "map"
           AllowStop,   \* the environment may fire the stop trigger / the lane may unlink
           Settled,     \* TRUE: environment acts only when the runtime is quiescent
           MaxSteps,    \* bound on the number of environment actions
-          Fixed,       \* findings repaired in the tree under test (subset of {"F10a","F10b"})
+          Strategies,  \* bad-frame strategies the runtime may be given: subset of {"abort", "ignore"}
+          MaxBad,      \* malformed frames the remote side may send (map downlinks)
+          AllowBadCmd, \* consumers may write garbage / keys that are not UTF-8 on their command channel
+          AllowTakeDrop, \* the lane may emit take(n) / drop(n) events
+          Fixed,       \* findings repaired in the tree under test (subset of {"F10a","F10b","F10d"})
           Enabled      \* open known findings (deviation actions of P)
 
 VARIABLES
     \* environment
     lane, rlinked, outbox, down, wire, aq, cq, cstate, copt, ncmd, nset, stopped, closing,
+    strat, nbad,       \* the BadFrameStrategy given to the runtime; malformed frames sent so far
     \* attach task
     rq, wq, attDone,
     \* read task
-    rs, dl, awL, awS, reg, cur, syncEv,
+    rs, dl, awL, awS, reg, cur, syncEv, timer,
     \* write task
     ws, flushed, needsSync, fstart, bp, wreg,
     \* scheduling: TRUE while the environment acts without the runtime having been polled
@@ -89,13 +94,14 @@ VARIABLES
 
 envVars == <<lane, rlinked, outbox, down, wire, aq, cq, cstate, copt, ncmd, nset, stopped, closing>>
 attVars == <<rq, wq, attDone>>
-readVars == <<rs, dl, awL, awS, reg, cur, syncEv>>
+readVars == <<rs, dl, awL, awS, reg, cur, syncEv, timer>>
 writeVars == <<ws, flushed, needsSync, fstart, bp, wreg>>
-vars == <<envVars, attVars, readVars, writeVars, burst, breads, p, hist, done>>
+vars == <<envVars, strat, nbad, attVars, readVars, writeVars, burst, breads, p, hist, done>>
 \* the mechanism state without the script (what a state of the implementation is)
-MView == <<envVars, attVars, readVars, writeVars, burst, breads, p, done>>
+MView == <<envVars, strat, nbad, attVars, readVars, writeVars, burst, breads, p, done>>
 
 Keys == {KeySeq[i] : i \in 1..Len(KeySeq)}
+IsMapKind == Kind # "value"        \* "map" (MapInterpretation) or "mapevent" (NoInterpretation)
 NoOp == [o |-> "none"]
 
 Val(w, i) == "w" \o ToString(w) \o "n" \o ToString(i)
@@ -121,9 +127,12 @@ Init ==
     /\ copt = [c \in Consumers |-> [sync |-> FALSE, keep |-> FALSE]]
     /\ ncmd = [c \in Consumers |-> 0] /\ nset = 0 /\ stopped = FALSE /\ closing = FALSE
     /\ rq = <<>> /\ wq = <<>> /\ attDone = FALSE
+    /\ strat \in Strategies /\ nbad = 0
+    \* task_state = Some(timeout): no consumer yet, messages are absorbed without being forwarded
+    /\ timer = TRUE
     /\ rs = "run" /\ dl = "init" /\ awL = <<>> /\ awS = <<>> /\ reg = <<>> /\ cur = NoOp /\ syncEv = FALSE
     /\ ws = "start" /\ flushed = TRUE /\ needsSync = FALSE /\ fstart = FALSE /\ bp = <<>> /\ wreg = {}
-    /\ p = PInit(Kind, Enabled)
+    /\ p = PInit(Kind, Enabled, strat)
     /\ hist = <<>> /\ done = FALSE /\ burst = FALSE /\ breads = 0
 
 -----------------------------------------------------------------------------
@@ -135,7 +144,7 @@ Deliveries(ds) == [i \in 1..Len(ds) |-> [k |-> "crecv", c |-> ds[i].c, n |-> ds[
 \* internal action: feed events to P, append the deliveries to the expectation of the last
 \* environment action
 Observe(ds) ==
-    /\ burst' = FALSE /\ breads' = 0
+    /\ burst' = FALSE /\ breads' = 0 /\ UNCHANGED <<strat, nbad>>
     /\ p' = PSteps(p, Deliveries(ds))
     /\ hist' = IF ds = <<>> \/ hist = <<>> THEN hist
                ELSE [hist EXCEPT ![Len(hist)].del = @ \o ds]
@@ -179,45 +188,72 @@ R_NewConsumer ==
     /\ G_R_NewConsumer
     /\ LET c == Head(rq) IN
        /\ rq' = Tail(rq)
-       /\ IF ~Alive(c) THEN UNCHANGED <<awL, awS, reg>> /\ Observe(<<>>)
-          ELSE IF dl = "init" THEN awL' = Append(awL, c) /\ UNCHANGED <<awS, reg>> /\ Observe(<<>>)
-          ELSE /\ Observe(To(c, <<Lk>>))
-               \* the code parks every late consumer with those awaiting synced (F10b)
-               /\ IF "F10b" \in Fixed /\ ~copt[c].sync
-                    THEN reg' = Append(reg, c) /\ UNCHANGED <<awL, awS>>
-                    ELSE awS' = Append(awS, c) /\ UNCHANGED <<awL, reg>>
+       /\ IF ~Alive(c) THEN UNCHANGED <<awL, awS, reg, timer>> /\ Observe(<<>>)
+          ELSE /\ timer' = FALSE                  \* task_state.set(None): a consumer is attached
+               /\ IF dl = "init" THEN awL' = Append(awL, c) /\ UNCHANGED <<awS, reg>> /\ Observe(<<>>)
+                  ELSE /\ Observe(To(c, <<Lk>>))
+                       \* the code parks every late consumer with those awaiting synced (F10b)
+                       /\ IF "F10b" \in Fixed /\ ~copt[c].sync
+                            THEN reg' = Append(reg, c) /\ UNCHANGED <<awL, awS>>
+                            ELSE awS' = Append(awS, c) /\ UNCHANGED <<awL, reg>>
     /\ UNCHANGED <<envVars, wq, attDone, rs, dl, cur, syncEv, writeVars, done>>
 
 Msg == Head(down)
 RG_Message == rs = "run" /\ down # <<>>
 G_R_Message == ReadTurn /\ RG_Message
+\* is_active: while the "no consumers" timeout is armed, messages only update dl_state / current
+Active == ~timer
+BadMsg == Msg.t = "event" /\ Msg.op.o = "bad" /\ Kind = "map"      \* MapInterpretation rejects it
 
 R_Linked ==
     /\ G_R_Message /\ Msg.t = "linked"
     /\ down' = Tail(down) /\ dl' = "linked"
-    /\ awL' = <<>>
-    /\ awS' = awS \o SelectSeq(awL, LAMBDA c : copt[c].sync)
-    /\ reg' = reg \o SelectSeq(awL, LAMBDA c : ~copt[c].sync)
-    /\ Observe(ToAll(awL, <<Lk>>))
+    /\ IF Active
+         THEN /\ awL' = <<>>
+              /\ awS' = awS \o SelectSeq(awL, LAMBDA c : copt[c].sync)
+              /\ reg' = reg \o SelectSeq(awL, LAMBDA c : ~copt[c].sync)
+              /\ timer' = (awS' = <<>> /\ reg' = <<>>)
+              /\ Observe(ToAll(awL, <<Lk>>))
+         ELSE UNCHANGED <<awL, awS, reg, timer>> /\ Observe(<<>>)
     /\ UNCHANGED <<lane, rlinked, outbox, wire, aq, cq, cstate, copt, ncmd, nset, stopped, closing,
                    attVars, rs, cur, syncEv, writeVars, done>>
 
 R_Synced ==
     /\ G_R_Message /\ Msg.t = "synced"
     /\ down' = Tail(down) /\ dl' = "synced"
-    /\ reg' = reg \o awS /\ awS' = <<>>
-    \* sync_current (SINGLE_FRAME_STATE && sync_event) vs sync_only
-    /\ IF Kind = "value" /\ syncEv
-         THEN Observe(ToAll(awS, <<Ev(cur), Sy>>))
-         ELSE Observe(ToAll(awS, <<Sy>>))
+    /\ IF Active
+         THEN /\ reg' = reg \o awS /\ awS' = <<>>
+              /\ timer' = (reg' = <<>>)
+              \* sync_current (SINGLE_FRAME_STATE && sync_event) vs sync_only
+              /\ IF Kind = "value" /\ syncEv
+                   THEN Observe(ToAll(awS, <<Ev(cur), Sy>>))
+                   ELSE Observe(ToAll(awS, <<Sy>>))
+         ELSE UNCHANGED <<awS, reg, timer>> /\ Observe(<<>>)
     /\ UNCHANGED <<lane, rlinked, outbox, wire, aq, cq, cstate, copt, ncmd, nset, stopped, closing,
                    attVars, rs, awL, cur, syncEv, writeVars, done>>
 
+\* send_current(registered); for a map (not SINGLE_FRAME_STATE) also awaiting_synced
+Forward(op) ==
+    IF Active
+      THEN /\ Observe(ToAll(IF IsMapKind THEN reg \o awS ELSE reg, <<Ev(op)>>))
+           /\ timer' = (reg = <<>> /\ awS = <<>>)
+      ELSE UNCHANGED timer /\ Observe(<<>>)
+
 R_Event ==
-    /\ G_R_Message /\ Msg.t = "event"
+    /\ G_R_Message /\ Msg.t = "event" /\ ~BadMsg
     /\ down' = Tail(down) /\ syncEv' = TRUE /\ cur' = Msg.op
-    \* send_current(registered); for a map (not SINGLE_FRAME_STATE) also awaiting_synced
-    /\ Observe(ToAll(IF Kind = "map" THEN reg \o awS ELSE reg, <<Ev(Msg.op)>>))
+    /\ Forward(Msg.op)
+    /\ UNCHANGED <<lane, rlinked, outbox, wire, aq, cq, cstate, copt, ncmd, nset, stopped, closing,
+                   attVars, rs, dl, awL, awS, reg, writeVars, done>>
+
+\* interpret_frame_data fails and the strategy says Ignore.  The code does not skip the frame: the
+\* buffer it cleared before interpreting is forwarded as an event without a body (F10d).
+R_BadIgnore ==
+    /\ G_R_Message /\ BadMsg /\ strat = "ignore"
+    /\ down' = Tail(down)
+    /\ IF "F10d" \in Fixed
+         THEN UNCHANGED <<syncEv, cur, timer>> /\ Observe(<<>>)
+         ELSE syncEv' = TRUE /\ cur' = [o |-> "empty"] /\ Forward([o |-> "empty"])
     /\ UNCHANGED <<lane, rlinked, outbox, wire, aq, cq, cstate, copt, ncmd, nset, stopped, closing,
                    attVars, rs, dl, awL, awS, reg, writeVars, done>>
 
@@ -233,7 +269,16 @@ R_Unlinked ==
     /\ down' = Tail(down)
     /\ EndRead(awL \o awS \o reg)
     /\ UNCHANGED <<lane, rlinked, outbox, wire, aq, cq, cstate, copt, ncmd, nset, stopped, closing,
-                   wq, attDone, dl, cur, syncEv, writeVars, done>>
+                   wq, attDone, dl, cur, syncEv, timer, writeVars, done>>
+
+\* interpret_frame_data fails and the strategy says Abort(report): break Err(report) - every
+\* consumer is unlinked, the runtime stops (run() logs the report)
+R_BadAbort ==
+    /\ G_R_Message /\ BadMsg /\ strat = "abort"
+    /\ down' = Tail(down)
+    /\ EndRead(awL \o awS \o reg)
+    /\ UNCHANGED <<lane, rlinked, outbox, wire, aq, cq, cstate, copt, ncmd, nset, stopped, closing,
+                   wq, attDone, dl, cur, syncEv, timer, writeVars, done>>
 
 \* ConsumerChannelStopped: the attach task has gone and the queue is drained
 RG_Stop == rs = "run" /\ attDone /\ rq = <<>>
@@ -241,7 +286,7 @@ G_R_Stop == ReadTurn /\ RG_Stop
 R_Stop ==
     /\ G_R_Stop
     /\ EndRead(awL \o awS \o reg)
-    /\ UNCHANGED <<envVars, wq, attDone, dl, cur, syncEv, writeVars, done>>
+    /\ UNCHANGED <<envVars, wq, attDone, dl, cur, syncEv, timer, writeVars, done>>
 
 -----------------------------------------------------------------------------
 (* write_task                                                              *)
@@ -252,6 +297,11 @@ WriteTurn == ~done /\ ~AttEnabled /\ ~ReadEnabled
 FlushDone == Len(wire) <= SockCap
 RegReady == wq # <<>>
 RecReady(c) == c \in wreg /\ (cq[c] # <<>> \/ ~Alive(c))
+\* Failed(id, _) -> DownlinkReceiver::terminate: the consumer wrote something that is no command;
+\* the runtime stops reading its commands (what it wrote after that is lost), Term marks the stream
+Term == [o |-> "term"]
+Terminated(c) == cq[c] # <<>> /\ Head(cq[c]).o = "term"
+NotCmd(op) == op.o = "badcmd"
 AnyRec == \E c \in Consumers : RecReady(c)
 StopReady == attDone /\ wq = <<>>
 Cmd(op) == [t |-> "cmd", op |-> op]
@@ -262,6 +312,7 @@ Push(q, op) ==
     IF Kind = "value" THEN
         \* ValueBackpressure: one slot, overwritten; has_data() is "slot not empty" (F10a)
         IF op.v = "" /\ "F10a" \notin Fixed THEN <<>> ELSE <<op>>
+    ELSE IF "badkey" \in DOMAIN op THEN q      \* MapOperationQueue::push fails (InvalidKey): logged, dropped
     ELSE IF op.o = "clr" THEN <<op>>
     ELSE LET S == {i \in 1..Len(q) : q[i].o # "clr" /\ q[i].k = op.k} IN
          IF S = {} THEN Append(q, op) ELSE [q EXCEPT ![Min(S)] = op]
@@ -313,15 +364,21 @@ W_Idle_Reg ==
 G_W_Idle_Rec(c) == WriteTurn /\ ws = "idle" /\ wreg # {} /\ ~RegReady /\ ~StopReady /\ c \in wreg /\ cq[c] # <<>>
 W_Idle_Rec(c) ==
     /\ G_W_Idle_Rec(c)
-    /\ cq' = [cq EXCEPT ![c] = Tail(@)]
-    /\ IF DirectPath
-         THEN \* write_direct + feed_command: completes at once; nothing buffered => Idle again
-              /\ wire' = Append(wire, Cmd(Head(cq[c]))) /\ flushed' = FALSE /\ fstart' = FALSE
-              /\ UNCHANGED <<ws, bp>>
-         ELSE /\ bp' = Push(bp, Head(cq[c])) /\ ws' = "wflush"
-              /\ UNCHANGED <<wire, flushed, fstart>>
+    /\ IF NotCmd(Head(cq[c]))
+         THEN \* Some(Err(Failed)): terminate the receiver; back to Idle / wait for the pending flush
+              /\ cq' = [cq EXCEPT ![c] = <<Term>>] /\ wreg' = wreg \ {c}
+              /\ IF DirectPath THEN flushed' = FlushedAfter /\ fstart' = FALSE /\ UNCHANGED ws
+                               ELSE ws' = "wflush" /\ UNCHANGED <<flushed, fstart>>
+              /\ UNCHANGED <<wire, bp>>
+         ELSE /\ cq' = [cq EXCEPT ![c] = Tail(@)] /\ UNCHANGED wreg
+              /\ IF DirectPath
+                   THEN \* write_direct + feed_command: completes at once; nothing buffered => Idle again
+                        /\ wire' = Append(wire, Cmd(Head(cq[c]))) /\ flushed' = FALSE /\ fstart' = FALSE
+                        /\ UNCHANGED <<ws, bp>>
+                   ELSE /\ bp' = Push(bp, Head(cq[c])) /\ ws' = "wflush"
+                        /\ UNCHANGED <<wire, flushed, fstart>>
     /\ UNCHANGED <<lane, rlinked, outbox, down, aq, cstate, copt, ncmd, nset, stopped, closing,
-                   attVars, readVars, needsSync, wreg, done>> /\ Silent
+                   attVars, readVars, needsSync, done>> /\ Silent
 
 \* a consumer's command stream ended; SelectAll drops it, and yields None when it is empty
 G_W_Idle_Gone(c) == WriteTurn /\ ws = "idle" /\ wreg # {} /\ ~RegReady /\ ~StopReady /\ c \in wreg /\ cq[c] = <<>> /\ ~Alive(c)
@@ -357,9 +414,13 @@ W_Wr_Done ==
 G_W_Wr_Rec(c) == WriteTurn /\ Writing /\ ~FlushDone /\ c \in wreg /\ cq[c] # <<>>
 W_Wr_Rec(c) ==
     /\ G_W_Wr_Rec(c)
-    /\ cq' = [cq EXCEPT ![c] = Tail(@)] /\ bp' = Push(bp, Head(cq[c]))
+    /\ IF NotCmd(Head(cq[c]))
+         THEN /\ cq' = [cq EXCEPT ![c] = <<Term>>] /\ wreg' = wreg \ {c} /\ UNCHANGED bp
+              /\ needsSync' = IF wreg = {c} THEN FALSE ELSE needsSync
+         ELSE /\ cq' = [cq EXCEPT ![c] = Tail(@)] /\ bp' = Push(bp, Head(cq[c]))
+              /\ UNCHANGED <<wreg, needsSync>>
     /\ UNCHANGED <<lane, rlinked, outbox, down, wire, aq, cstate, copt, ncmd, nset, stopped, closing,
-                   attVars, readVars, ws, flushed, needsSync, fstart, wreg, done>> /\ Silent
+                   attVars, readVars, ws, flushed, fstart, done>> /\ Silent
 
 G_W_Wr_Gone(c) == WriteTurn /\ Writing /\ ~FlushDone /\ c \in wreg /\ cq[c] = <<>> /\ ~Alive(c)
 W_Wr_Gone(c) ==
@@ -415,9 +476,10 @@ Reads0 == IF Quiescent THEN 0 ELSE breads
 \* an environment action: its events go to P (after the settle barrier if the system was
 \* quiescent), its record (inputs + the outputs M expects) starts a new script entry
 Act(rec, events) ==
+    /\ UNCHANGED strat
     /\ p' = PSteps(p, Pre \o events)
     /\ hist' = Append(hist, rec @@ [pre |-> Quiescent, del |-> <<>>])
-NoRead == burst' = TRUE /\ breads' = Reads0
+NoRead == burst' = TRUE /\ breads' = Reads0 /\ UNCHANGED nbad
 
 Attach(c, o) ==
     /\ cstate[c] = "new" /\ Open /\ MayAct
@@ -431,18 +493,22 @@ Attach(c, o) ==
 
 \* the command consumer c writes: kind o on key k (o, k range over constants so that TLC reports
 \* CSend as one action); bodies are unique per (consumer, sequence number)
-CmdKinds == IF Kind = "value" THEN {"set"} \cup (IF AllowEmpty THEN {"empty"} ELSE {}) ELSE {"upd", "rem", "clr"}
-KeyChoice(o) == IF o \in {"upd", "rem"} THEN Keys ELSE {"*"}
+CmdKinds == IF Kind = "value" THEN {"set"} \cup (IF AllowEmpty THEN {"empty"} ELSE {})
+            ELSE {"upd", "rem", "clr"} \cup (IF AllowBadCmd THEN {"badcmd", "badkey"} ELSE {})
+KeyChoice(o) == IF o \in {"upd", "rem", "badkey"} THEN Keys ELSE {"*"}
 MkOp(o, k, v) ==
     IF o = "set" THEN [o |-> "set", v |-> v]
     ELSE IF o = "empty" THEN [o |-> "set", v |-> ""]
     ELSE IF o = "upd" THEN [o |-> "upd", k |-> k, v |-> v]
     ELSE IF o = "rem" THEN [o |-> "rem", k |-> k]
+    ELSE IF o = "badkey" THEN [o |-> "upd", k |-> k, v |-> v, badkey |-> TRUE]   \* key bytes not UTF-8
+    ELSE IF o = "badcmd" THEN [o |-> "badcmd"]                                   \* no map operation at all
+    ELSE IF o \in {"take", "drop"} THEN [o |-> o, n |-> 1]
     ELSE [o |-> "clr"]
 
 CSend(c, o, k) ==
     /\ o \in CmdKinds /\ k \in KeyChoice(o)          \* (cheap filters first: TLC evaluates in order)
-    /\ Alive(c) /\ ncmd[c] < MaxCmd /\ Open /\ MayAct
+    /\ Alive(c) /\ ~Terminated(c) /\ ncmd[c] < MaxCmd /\ Open /\ MayAct
     /\ LET op == MkOp(o, k, Val(c, ncmd[c] + 1)) IN
        /\ ncmd' = [ncmd EXCEPT ![c] = @ + 1]
        /\ cq' = [cq EXCEPT ![c] = Append(@, op)]
@@ -458,7 +524,7 @@ CDrop(c) ==
     /\ Act([k |-> "cdrop", c |-> c], <<[k |-> "cdrop", c |-> c]>>)
     /\ NoRead
     /\ UNCHANGED <<lane, rlinked, outbox, down, wire, aq, cq, copt, ncmd, nset, stopped, closing,
-                   attVars, rs, dl, cur, syncEv, writeVars, done>>
+                   attVars, rs, dl, cur, syncEv, timer, writeVars, done>>
 
 \* the remote lane
 Snapshot ==
@@ -483,7 +549,7 @@ Readable == wire # <<>> /\ ~(ws = "idle" /\ wreg # {} /\ ~flushed /\ ~fstart)
 RRead(hold) ==
     /\ Readable /\ MayDrain /\ (Quiescent \/ Reads0 < SockCap)
     /\ Draining => (~hold /\ outbox = <<>>)
-    /\ breads' = Reads0 + 1 /\ burst' = (Reads0 < SockCap)
+    /\ breads' = Reads0 + 1 /\ burst' = (Reads0 < SockCap) /\ UNCHANGED nbad
     /\ LET f == Head(wire)
            ans == Answer(f)
            out == IF hold THEN <<>> ELSE outbox \o ans IN
@@ -506,7 +572,8 @@ RPush ==
 
 \* a change of the lane made by somebody else
 RSet(o, k) ==
-    /\ o \in (IF Kind = "value" THEN {"set"} ELSE {"upd", "rem"}) /\ k \in KeyChoice(o)
+    /\ o \in (IF Kind = "value" THEN {"set"}
+              ELSE {"upd", "rem"} \cup (IF AllowTakeDrop THEN {"take", "drop"} ELSE {})) /\ k \in KeyChoice(o)
     /\ nset < MaxSet /\ Open /\ MayAct
     /\ LET op == MkOp(o, k, RVal(nset + 1))
            out == IF rlinked THEN outbox \o <<Ev(op)>> ELSE outbox IN
@@ -515,6 +582,31 @@ RSet(o, k) ==
        /\ Act([k |-> "rset", op |-> op, resp |-> out], RSends(out))
     /\ NoRead
     /\ UNCHANGED <<rlinked, wire, aq, cq, cstate, copt, ncmd, stopped, closing,
+                   attVars, readVars, writeVars, done>>
+
+\* garbage on the socket: an event envelope whose body is not a map message, at any point of the
+\* session (the link state of the lane plays no part).  With the Abort strategy the link will close.
+BadOp == [o |-> "bad", b |-> 0]
+RBad ==
+    /\ IsMapKind /\ nbad < MaxBad /\ Open /\ MayAct
+    /\ nbad' = nbad + 1 /\ burst' = TRUE /\ breads' = Reads0
+    /\ closing' = (Kind = "map" /\ strat = "abort")
+    /\ LET out == outbox \o <<Ev(BadOp)>>
+           marked == [i \in 1..Len(out) |-> IF i = Len(out) /\ Kind = "map"
+                                              THEN [k |-> "rsend", n |-> out[i], bad |-> TRUE]
+                                              ELSE [k |-> "rsend", n |-> out[i]]] IN
+       /\ outbox' = <<>> /\ down' = down \o out
+       /\ Act([k |-> "rbad", op |-> BadOp, resp |-> out], marked)
+    /\ UNCHANGED <<lane, rlinked, wire, aq, cq, cstate, copt, ncmd, nset, stopped, attVars, readVars, writeVars, done>>
+
+\* a consumer attaches after the runtime has stopped: the request is refused
+AttachLate(c, o) ==
+    /\ cstate[c] = "new" /\ closing /\ attDone /\ MayAct
+    /\ cstate' = [cstate EXCEPT ![c] = "dropped"]
+    /\ Act([k |-> "attach", c |-> c, sync |-> o.sync, keep |-> o.keep, attached |-> FALSE],
+           <<[k |-> "attach", c |-> c, sync |-> o.sync, keep |-> o.keep], [k |-> "attachfail", c |-> c]>>)
+    /\ NoRead
+    /\ UNCHANGED <<lane, rlinked, outbox, down, wire, aq, cq, copt, ncmd, nset, stopped, closing,
                    attVars, readVars, writeVars, done>>
 
 RUnlink ==
@@ -542,19 +634,20 @@ Finish ==
     /\ done' = TRUE
     /\ p' = PSteps(p, <<[k |-> "settle"], [k |-> "finish", running |-> Running]>>)
     /\ hist' = Append(hist, [k |-> "finish", pre |-> TRUE, del |-> <<>>, running |-> Running])
-    /\ UNCHANGED <<envVars, attVars, readVars, writeVars, burst, breads>>
+    /\ UNCHANGED <<envVars, strat, nbad, attVars, readVars, writeVars, burst, breads>>
 
 Next ==
     \/ A_Fwd \/ A_Stop
-    \/ R_NewConsumer \/ R_Linked \/ R_Synced \/ R_Event \/ R_Unlinked \/ R_Stop
+    \/ R_NewConsumer \/ R_Linked \/ R_Synced \/ R_Event \/ R_BadIgnore \/ R_BadAbort \/ R_Unlinked \/ R_Stop
     \/ W_LinkDone \/ W_IdleEmpty_Reg \/ W_Idle_Block \/ W_Idle_Reg \/ W_Wr_Done \/ W_Wr_Reg \/ W_Stop
     \/ \E c \in Consumers : W_Idle_Rec(c) \/ W_Idle_Gone(c) \/ W_Wr_Rec(c) \/ W_Wr_Gone(c)
     \/ \E c \in Consumers : \E o \in OptSet : Attach(c, o)
-    \/ \E c \in Consumers : \E o \in {"set", "empty", "upd", "rem", "clr"} : \E k \in Keys \cup {"*"} : CSend(c, o, k)
+    \/ \E c \in Consumers : \E o \in OptSet : AttachLate(c, o)
+    \/ \E c \in Consumers : \E o \in {"set", "empty", "upd", "rem", "clr", "badcmd", "badkey"} : \E k \in Keys \cup {"*"} : CSend(c, o, k)
     \/ \E c \in Consumers : CDrop(c)
     \/ RRead(FALSE) \/ (AllowHold /\ RRead(TRUE)) \/ RPush
-    \/ \E o \in {"set", "upd", "rem"} : \E k \in Keys \cup {"*"} : RSet(o, k)
-    \/ RUnlink \/ Stop \/ Finish
+    \/ \E o \in {"set", "upd", "rem", "take", "drop"} : \E k \in Keys \cup {"*"} : RSet(o, k)
+    \/ RBad \/ RUnlink \/ Stop \/ Finish
 
 Spec == Init /\ [][Next]_vars
 
@@ -576,7 +669,8 @@ ListsDisjoint ==
     /\ SeqToSet(awS) \cap SeqToSet(reg) = {}
     /\ Len(awL) = Cardinality(SeqToSet(awL)) /\ Len(awS) = Cardinality(SeqToSet(awS))
     /\ Len(reg) = Cardinality(SeqToSet(reg))
-    /\ (dl # "init") => awL = <<>>
+    \* (a malformed frame that is forwarded while consumers wait for linked strands them: F10d)
+    /\ (dl # "init") => (awL = <<>> \/ nbad > 0)
 
 \* backpressure (and NEEDS_SYNC) are used only while a write is pending
 BackpressureOnlyWhileWriting == (bp # <<>> \/ needsSync) => (Writing \/ ws = "stopped")
